@@ -561,8 +561,8 @@ Proof.
 Qed.
 
 (* ------------------------------------------------------------------ the two open findings *)
-Definition K16 : mvctx := mkMV 2 [CAttr [true; false]] [0; 1] [0].
-Definition K17 : mvctx := mkMV 1 [CAttr [false]] [0] [0].
+Definition K16 : mvctx := mkMV 2 [CAttr [true; false]] [0; 1] [0] [0].
+Definition K17 : mvctx := mkMV 1 [CAttr [false]] [0] [0] [0].
 
 Lemma K16_wf : mv_wf K16. Proof. repeat constructor. Qed.
 Lemma K17_wf : mv_wf K17. Proof. repeat constructor. Qed.
